@@ -272,7 +272,16 @@ const WORDS: &[&str] = &[
 ];
 
 pub fn gen_bytes() -> Vec<u8> {
-    match choose_w(&[8, 2, 2, 2, 1, 2, 1], "bytes.class") {
+    match choose_w(&[16, 4, 4, 4, 2, 4, 2, 1], "bytes.class") {
+        7 => {
+            // long: around the buffer sizes readers and writers work in; every eighth one not UTF-8
+            let n = [1023usize, 4096, 8191, 8192, 8193, 65536][choose(6, "bytes.long")];
+            let mut v: Vec<u8> = (0..n).map(|i| b'a' + ((i * 11 + n) % 26) as u8).collect();
+            if chance(1, 8, "bytes.long_raw") {
+                v[n / 2] = 0xFE;
+            }
+            v
+        }
         0 => WORDS[choose(WORDS.len(), "bytes.word")].as_bytes().to_vec(),
         1 => vec![0xC3, 0x28],
         2 => vec![0xFF],
@@ -317,10 +326,26 @@ pub fn gen_value(ty: &MType, size: usize) -> MValue {
         MType::Ip => MValue::Ip(gen_ip()),
         MType::Bytes => MValue::Bytes(gen_bytes()),
         MType::Array(t) => {
+            if size >= 3 && chance(1, 40, "arr.big") {
+                // many elements (counts around the widths of small integers), each small
+                let n = [17usize, 33, 64, 65, 255, 256, 257, 1000][choose(8, "arr.big_n")];
+                return MValue::Array((**t).clone(), (0..n).map(|_| gen_value(t, 1)).collect());
+            }
             let n = choose_w(&[2, 3, 3, 2, 1, 1, 1], "arr.len").min(size);
             MValue::Array((**t).clone(), (0..n).map(|_| gen_value(t, size.saturating_sub(1).max(1))).collect())
         }
         MType::Map(t) => {
+            if size >= 3 && chance(1, 40, "map.big") {
+                let n = [17usize, 33, 65, 257][choose(4, "map.big_n")];
+                let mut m = BTreeMap::new();
+                for i in 0..n {
+                    m.insert(format!("k{i:03}").into_bytes(), gen_value(t, 1));
+                }
+                if chance(1, 3, "map.big_raw") {
+                    m.insert(vec![b'k', 0xFE], gen_value(t, 1));
+                }
+                return MValue::Map((**t).clone(), m);
+            }
             let n = choose_w(&[2, 3, 3, 2, 1], "map.len").min(size);
             let mut m = BTreeMap::new();
             for _ in 0..n {
